@@ -68,6 +68,33 @@ def stop_points(f0: bool, f1: bool, b0: bool, b1: bool, b2: bool, b3: bool, b4: 
     return verdict(r[0])
 
 
+def _blocked(flags, bits, list_kind, early, lazy, choices) -> tuple:
+    """Template 10 with a deferred resolver that never completes on its own: once the position it
+    belongs to has been nulled by an (asynchronous) non-null error, it must be cancelled -- after
+    the response is complete nothing may be left pending."""
+    root = make_root(True, False)
+    try:
+        d, loop, sched, world = run_incremental(10, root, flags, bits, list_kind, early, lazy, choices, never=("Hero.slow",))
+    except Exception:
+        return (False, "harness exception")
+    if d.hang:
+        return (False, "the awaiting caller is never released")
+    if loop.pending_tasks() or world.inflight:
+        return (False, "a resolver that never completes was not cancelled although its position was nulled")
+    return (True, "")
+
+
+def blocked_deferred_resolver(b2: bool, b4: bool, lazy: bool, c0: int, c1: int, c2: int, *, list_kind: int, early: bool) -> bool:
+    # (only the deferred case: without @defer the executor deliberately lets orphaned awaitables
+    # settle instead of cancelling them, so a resolver that never completes is outside its contract)
+    flags = [True, True, True, True]
+    bits = [False, False, True if b2 else False, False, False, True if b4 else False, False, False]
+    r = concrete(_blocked, flags, bits, list_kind, early, True if lazy else False, [c0, c1, c2, 0])
+    if not r[0]:
+        note(r[1])
+    return verdict(r[0])
+
+
 BOUNDS = {
     "quick": [
         "templates 0, 2, 4, 6, 10, 11 of the incremental family; stop kinds: none / aclose after 0..3 payloads / abort signal (AbortError, an exception, a non-exception reason) before the 0..5th settlement / source iterator raising at item 0..2 / resolver errors; symbolic directive flags, 5 sync-or-awaitable positions, consumer timing, 4 scheduler decisions; cells: template x list kind x early execution x stop kind",
@@ -99,10 +126,18 @@ def cells(tier):
 
 def obligations(tier):
     th = tier == "thorough"
-    return [dict(fn="stop_points", cell=c, budget_s=1200 if th else 40, expect_confirm=th) for c in cells(tier)]
+    obs = [dict(fn="stop_points", cell=c, budget_s=1200 if th else 40, expect_confirm=th) for c in cells(tier)]
+    for lk in (0, 1, 2):
+        for early in (False, True):
+            obs.append(dict(fn="blocked_deferred_resolver", cell=dict(list_kind=lk, early=early), budget_s=600 if th else 60))
+    return obs
 
 
 def corpus():
+    for lk in (0, 1, 2):
+        for early in (False, True):
+            yield "blocked_deferred_resolver", dict(list_kind=lk, early=early), dict(b2=False, b4=True, lazy=False, c0=0, c1=0, c2=0)
+            yield "blocked_deferred_resolver", dict(list_kind=lk, early=early), dict(b2=True, b4=False, lazy=True, c0=1, c1=0, c2=0)
     base = dict(f0=True, f1=True, b0=False, b1=False, b2=False, b3=False, b4=False, lazy=False, c0=0, c1=0, c2=0, c3=0, stop_after=1, abort_at=1, reason_kind=1)
     for c in cells("quick"):
         yield "stop_points", c, dict(base)
